@@ -3,7 +3,7 @@ use anyhow::Result;
 use hir::{Config, HirSpec, Language, Operation};
 use libninja_macro::rfunction;
 use mir::{import, File, Function, Item};
-use mir_rust::{to_rust_example_value, ToRustCode, ToRustIdent};
+use mir_rust::{sanitize_filename, to_rust_example_value, ToRustCode, ToRustIdent};
 use proc_macro2::TokenStream;
 use quote::quote;
 use std::collections::HashSet;
@@ -15,7 +15,7 @@ pub fn write_examples_folder(spec: &HirSpec, config: &Config, modified: &mut Has
     fs::create_dir_all(&path)?;
     for operation in &spec.operations {
         let file = generate_example(operation, &config, spec)?;
-        let path = path.join(operation.file_name()).with_extension("rs");
+        let path = path.join(sanitize_filename(&operation.file_name())).with_extension("rs");
         write_rust(&path, file.to_rust_code(), modified)?;
     }
     Ok(())
@@ -68,7 +68,7 @@ pub fn generate_example(operation: &Operation, cfg: &Config, spec: &HirSpec) -> 
     ];
     if use_required {
         let struct_name = operation.required_struct_name();
-        let file_name = operation.file_name();
+        let file_name = sanitize_filename(&operation.file_name());
         let package_name = cfg.package_name();
         imports.push(import!(format!("{package_name}::request::{file_name}::{struct_name}")));
     }
